@@ -410,6 +410,10 @@ class Exec(Interp):
         it = self.eval(s.iter)
         sv = z3.simplify(it)
         cn = V.ctor_name(sv)
+        d = self.ctx.fn_desc(sv) if cn == "fn" else None
+        if (d is not None and d.kind == "dictview") or cn == "dict":
+            sv = self.dict_as_sequence(d.payload if d is not None else sv, d.name if d is not None else "keys", s)
+            cn = V.ctor_name(sv)
         fkey, ordinal = self.loop_ordinal(s)
         inv = self.ctx.contracts_loop(fkey, ordinal) if hasattr(self.ctx, "contracts_loop") else None
         if cn in ("list", "tuple") and inv is None:
@@ -431,6 +435,42 @@ class Exec(Interp):
                     self.exec_block(s.orelse)
                 return
         self._cut_loop(s, kind="afor" if is_async else "for", iterable=sv)
+
+    def dict_as_sequence(self, D, what, node):
+        """Iteration over a dict (view): a list R of its keys / values / (key, value) pairs in unspecified
+        order.  Literal dicts are enumerated; a symbolic dict becomes a fresh sequence whose length is the
+        dict size and whose elements are characterised when they are read (element axiom)."""
+        from . import prelude
+        D = z3.simplify(D)
+        ks = prelude.concrete_keys(D)
+        if ks is not None:
+            out = []
+            for k in ks:
+                v = z3.simplify(z3.Select(Val.dvals(D), z3.StringVal(k)))
+                out.append({"keys": V.VStr(k), "values": v, "items": V.VTuple([V.VStr(k), v])}[what])
+            return V.VList(out)
+        self.counter += 1
+        R = z3.Const(f"dictseq~{self.counter}", V.SeqVal)
+        self.assume(z3.And(Val.dsize(D) >= 0, z3.Length(R) == Val.dsize(D)))
+        if not hasattr(self, "seq_axioms"):
+            self.seq_axioms = {}
+
+        def axiom(I, i, e):
+            if what == "items":
+                k = Val.s(Val.titems(e)[0])
+                I.assume(z3.And(V.is_tuple(e), z3.Length(Val.titems(e)) == 2, V.is_str(Val.titems(e)[0]),
+                                z3.Select(Val.dkeys(D), k), Val.titems(e)[1] == z3.Select(Val.dvals(D), k)))
+            elif what == "keys":
+                k = Val.s(e)
+                I.assume(z3.And(V.is_str(e), z3.Select(Val.dkeys(D), k)))
+            else:
+                k = I.fresh("vk", z3.StringSort())
+                I.assume(z3.And(z3.Select(Val.dkeys(D), k), e == z3.Select(Val.dvals(D), k)))
+            h = getattr(I, "dict_entry_hook", None)
+            if h is not None:
+                h(I, D, k)
+        self.seq_axioms[R.get_id()] = axiom
+        return V.VList(R)
 
     def _cut_loop(self, s, kind, iterable=None):
         fkey, ordinal = self.loop_ordinal(s)
@@ -482,7 +522,11 @@ class Exec(Interp):
                 i = Val.i(self.frame.vars[iname])
                 enter = self.choose(i < z3.Length(seq), "for_has_next")
                 if enter:
-                    self.assign(s.target, z3.simplify(seq[i]))
+                    elem = z3.simplify(seq[i])
+                    ax = getattr(self, "seq_axioms", {}).get(z3.simplify(seq).get_id())
+                    if ax is not None:
+                        ax(self, i, elem)
+                    self.assign(s.target, elem)
             else:
                 nxt = self.iter_next(self.frame.vars[itername], s, kind == "afor")
                 enter = nxt is not None
@@ -887,7 +931,13 @@ class Exec(Interp):
         kwargs = {}
         for k in e.keywords:
             if k.arg is None:
-                dv = self.eval(k.value)
+                dv = z3.simplify(self.eval(k.value))
+                if V.ctor_name(dv) is None or (V.ctor_name(dv) == "dict" and prelude.concrete_keys(dv) is None):
+                    # a mapping with a symbolic key set: passed on opaquely (only callable environments accept it)
+                    if V.ctor_name(dv) is None and not self.choose(V.is_dict(dv), "kwargs_is_dict"):
+                        self.throw("TypeError", "argument after ** must be a mapping")
+                    kwargs["**"] = dv
+                    continue
                 for kk, vv in prelude.concrete_items(self, dv, k):
                     kwargs[kk] = vv
             else:
@@ -992,6 +1042,8 @@ class Exec(Interp):
 
     # ---- user functions
     def bind_params(self, fnode, args: List, kwargs: Dict, node, frame: Frame):
+        if "**" in kwargs:
+            raise Unsupported("** of a dict with symbolic key set into an interpreted function", node)
         a = fnode.args
         params = [p.arg for p in a.posonlyargs + a.args]
         defaults = a.defaults
